@@ -41,6 +41,9 @@ def frames_for(dll, d, sa=0x90):
           ('pdu2', R.ref_can_id(6, 0xFE00 + d, sa), [9, 8, 7], False, True),
           ('pdu2-dp1', R.ref_can_id(6, 0x1F000 + d, sa), [9, 8, 7, 6], False, True),
           ('request', R.ref_can_id(6, 0xEA00 + d, sa), [0xCA, 0xFE, 0x00], False, False)]
+    # an address claim sent to ONE destination, from the very address a local CA holds (0x41 / 0x44 / 0x47 in the shapes): to a
+    # foreign destination it is foreign traffic like any other — no answer, no state
+    fr += [('claim-from-a-local-address', R.ref_can_id(6, 0xEE00 + d, a), [1, 0, 0, 0, 0, 0, 0, 0], False, False) for a in (0x41, 0x44, 0x47)]
     if dll == 'j1939-21':
         fr += [('tp-rts', R.ref_tp_cm_id(7, d, sa), R.ref_rts(20, 3, 3, 0xD000), False, False),
                ('tp-cts', R.ref_tp_cm_id(7, d, sa), R.ref_cts(1, 1, 0xD000), False, False),
@@ -56,7 +59,9 @@ def frames_for(dll, d, sa=0x90):
                ('fd-abort', cmid, cm(15, 1, 0xFFFFFF, 0xFFFFFF, 0xFF, 1, 0xD000), True, False),
                ('fd-eoms', cmid, cm(2, 1, 100, 2, 0, 0, 0xD000), True, False),
                ('fd-dt', R.ref_can_id(7, 0x4E00 + d, sa), [0x10, 1, 0, 0] + list(range(60)), True, False),
-               ('fd-multipg', R.ref_can_id(6, 0x2500 + d, sa), [0x40, 0xD0, 0x00, 3, 7, 8, 9, 0], True, False)]
+               ('fd-multipg', R.ref_can_id(6, 0x2500 + d, sa), [0x40, 0xD0, 0x00, 3, 7, 8, 9, 0], True, False),
+               # ... carrying a PDU2 parameter group: still addressed to ONE node by the frame's destination
+               ('fd-multipg-pdu2', R.ref_can_id(6, 0x2500 + d, sa), [0x40, 0xFE, 0x12, 3, 7, 8, 9, 0], True, False)]
     return fr
 
 
@@ -76,10 +81,12 @@ def flag_cases(dlls):
         for ext in (True, False):
             for remote in (True, False):
                 for error in (True, False):
-                    cid = R.ref_can_id(6, 0xFE11, 0x90) if ext else 0x123
-                    yield dict(stacks=[dict(dll=dll, max_cmdt=2, subs=SHAPES[0]['subs'], cas=[])], lat=[1], jit=[1], script=[],
-                               inject=[dict(t=1000, to=0, id=cid, data=[1, 2, 3], ext=ext, remote=remote, error=error, via='listener')],
-                               horizon=100000, meta=dict(shape=0, kind='flags', ext=ext, remote=remote, error=error, dll=dll, dest=255, broadcast=True))
+                    for fdf in (False, True):
+                        for si, cid11 in ((0, 0x123), (4, 0x023)):      # (an 11-bit id read as 29 bits would address 1 resp. 0)
+                            cid = R.ref_can_id(6, 0xFE11, 0x90) if ext else cid11
+                            yield dict(stacks=[dict(dll=dll, max_cmdt=2, subs=SHAPES[si]['subs'], cas=SHAPES[si]['cas'])], lat=[1], jit=[1], script=[],
+                                       inject=[dict(t=1000, to=0, id=cid, data=[1, 2, 3], ext=ext, fd=fdf, remote=remote, error=error, via='listener')],
+                                       horizon=100000, meta=dict(shape=si, kind='flags', ext=ext, fd=fdf, remote=remote, error=error, dll=dll, dest=255, broadcast=True))
 
 
 def leaver_cases(rng, n):
@@ -145,7 +152,7 @@ def oracle(sc, res):
         exp = expected_cbs(shape, d, m['broadcast'])
         if cbs != exp:
             v.append(dict(kind='wrong-set-of-listeners', meta=m, fired=cbs, expected=exp))
-    elif m['kind'] == 'fd-multipg':
+    elif m['kind'] in ('fd-multipg', 'fd-multipg-pdu2'):
         exp = expected_cbs(shape, d, False)
         if cbs != exp:
             v.append(dict(kind='wrong-set-of-listeners', meta=m, fired=cbs, expected=exp))
